@@ -172,7 +172,7 @@ def _has_try(case, upto):
     bodies = [c["body"] for c in case["cells"]]
     bodies += [parse_sexp(" ".join(op[2:])) for op in case["ops"][:upto] if op[0] == "setformula"]
     bodies += [parse_sexp(" ".join(op[5:])) for op in case["ops"][:upto] if op[0] == "newcell"]
-    return any(e[0] == "try" for b in bodies for e in subexprs(b))
+    return any(e[0] in ("try", "trx") for b in bodies for e in subexprs(b))
 
 
 def xoracle(case, recs, out, stats):
